@@ -209,7 +209,7 @@ func VF_C20_a_send() {
 		// an entry of ctx.callState is written back by the commit of the transaction (commitCalledContract puts the
 		// account state of every callback entry): an entry for an address that has no account creates one.
 		vf.AssertKnown(vf.Or(!after.inCall, vf.Or(before.inCall, before.inState)), "C20.a.send.created",
-			"F-C20-1-view-zero-send-new-account", vf.And(kind == vfRcptFresh, zero))
+			"F-C20-1-view-lookup-creates-account", vf.And(kind == vfRcptFresh, zero))
 	}
 	vf.Assert(len(w.ctx.callState) <= nCall+1, "C20.a.send.created")
 	// a transfer that was asked for is refused with an error (a zero amount to a plain account is a successful no-op)
@@ -251,4 +251,43 @@ func VF_C20_a_deploy() {
 	vf.Assert(int32(ret) == -1, "C20.a.deploy.refused")
 	vf.Assert(msg != nil, "C20.a.deploy.refused")
 	vf.Observe("refused", int32(ret) == -1)
+}
+
+// VF_C20_a_lookup: callbacks that only LOOK an account UP from a read-only context: system.isContract(addr), and
+// contract.call(addr, ...) for every recipient whose code cannot be found (the call returns before newExecutor; the
+// recipient kind "contract with code" needs LuaJIT and is excluded). Same effect obligations as for send.
+func VF_C20_a_lookup() {
+	w := vfNewWorld2()
+	kind := vf.Choice("recipient", vfRcptKinds)
+	id, addr := vfRecipient(kind)
+	var before vfAcct
+	if id != nil {
+		before = w.acct(id)
+	}
+	nCall := len(w.ctx.callState)
+	switch vf.Choice("op", 2) {
+	case 0:
+		n, msg := luaIsContract(nil, 0, _Cfunc_CString(addr))
+		if id != nil {
+			vf.Assert(msg == nil, "C20.a.lookup.answer")
+			vf.Assert((n > 0) == (before.code > 0), "C20.a.lookup.answer")
+		} else {
+			vf.Assert(msg != nil, "C20.a.lookup.answer")
+		}
+	default:
+		vf.Assume(kind != vfRcptCtr)
+		amountArg, _ := vfAmountArg()
+		ret, msg := luaCallContract(nil, 0, _Cfunc_CString(addr), _Cfunc_CString("f"), _Cfunc_CString("[]"), amountArg, 0)
+		vf.Assert(int32(ret) == -1, "C20.a.lookup.refused")
+		vf.Assert(msg != nil, "C20.a.lookup.refused")
+	}
+	vf.Reach("C20.a.lookup")
+	w.unchanged("C20.a.lookup")
+	if id != nil {
+		after := w.acct(id)
+		vfSameAcct(before, after, "C20.a.lookup")
+		vf.AssertKnown(vf.Or(!after.inCall, vf.Or(before.inCall, before.inState)), "C20.a.lookup.created",
+			"F-C20-1-view-lookup-creates-account", kind == vfRcptFresh)
+	}
+	vf.Assert(len(w.ctx.callState) <= nCall+1, "C20.a.lookup.created")
 }
